@@ -449,3 +449,36 @@ Proof. intros -> ->. apply read_of_section. Qed.
 Lemma read_of_last' a b off n :
   off = len a -> n = len b -> read_of (a ++ b) off n = b.
 Proof. intros -> ->. rewrite <- (app_nil_r b) at 1. apply read_of_section. Qed.
+
+Lemma nth_error_firstn_lt {A} (l : list A) n i : (i < n)%nat -> nth_error (firstn n l) i = nth_error l i.
+Proof.
+  revert n i. induction l as [| a t IH]; intros n i H.
+  - rewrite firstn_nil. reflexivity.
+  - destruct n; [lia |]. destruct i; [reflexivity |]. cbn [firstn nth_error]. apply IH. lia.
+Qed.
+
+Lemma nth_error_skipn_add {A} (l : list A) n i : nth_error (skipn n l) i = nth_error l (n + i).
+Proof.
+  revert n. induction l as [| a t IH]; intro n.
+  - rewrite skipn_nil. destruct i, n; reflexivity.
+  - destruct n; [reflexivity |]. cbn [skipn Nat.add nth_error]. apply IH.
+Qed.
+
+Lemma firstn_read_of f o n k : k <= n -> firstn (N.to_nat k) (read_of f o n) = read_of f o k.
+Proof.
+  intro H. apply (nth_ext _ _ 0 0).
+  - rewrite firstn_length, !read_of_length. lia.
+  - intros i Hi. rewrite firstn_length, read_of_length in Hi.
+    rewrite nth_firstn_lt by lia. rewrite !read_of_nth by lia. reflexivity.
+Qed.
+
+Lemma read_of_zeros m o n : read_of (zeros m) o n = zeros n.
+Proof.
+  apply (nth_ext _ _ 0 0).
+  - now rewrite read_of_length, length_zeros.
+  - intros i Hi. rewrite read_of_length in Hi. rewrite read_of_nth by assumption.
+    now rewrite !nth_zeros.
+Qed.
+
+Lemma fit_nil n : fit n [] = zeros n.
+Proof. unfold fit. cbn [app]. rewrite <- (length_zeros n) at 1. apply firstn_all. Qed.
